@@ -233,6 +233,10 @@ func (g *genCtx) value(t Ty, path string) interface{} {
 		return g.files(name, content)
 	}
 	if s := g.p.Struct(t.Base); s != nil {
+		if g.cfg.AllowNil && h%4 == 0 && strings.ContainsAny(path, "[{") {
+			// a null element in a collection of structs
+			return nil
+		}
 		m := make(map[string]interface{}, len(s.Fields))
 		for _, f := range s.Fields {
 			m[f.Name] = g.value(f.T, path+"."+f.Name)
